@@ -398,6 +398,17 @@ func ParseNameAddrPVal(h HdrT, buf []byte, offs int, pfrom *PFromBody) (int, Err
 				} else {
 					pfrom.state = fbNewPossibleParam
 				}
+			case ',':
+				if multipleValsOk(h) {
+					// whitespace between the param name and ',' (e.g.
+					// "<a>;p ,<b>"): the value ends at the param name end
+					n = i
+					crl = 1
+					retOkErr = ErrHdrMoreValues
+					i = pfrom.pend
+					goto endOfHdr
+				}
+				return i, ErrHdrBadChar
 			default:
 				// no other char allowed after a param name token
 				// (the whitespace was already skipped in fb*ParamName)
@@ -491,6 +502,17 @@ func ParseNameAddrPVal(h HdrT, buf []byte, offs int, pfrom *PFromBody) (int, Err
 					pfrom.state = fbNewPossibleParam
 					setFromParamVal(buf, pfrom)
 				}
+			case ',':
+				if multipleValsOk(h) {
+					// whitespace between the param value and ',' (e.g.
+					// "<a>;p=v ,<b>"): the value ends at the param value end
+					n = i
+					crl = 1
+					retOkErr = ErrHdrMoreValues
+					i = pfrom.vend
+					goto endOfHdr
+				}
+				return i, ErrHdrBadChar
 			default:
 				// no other char allowed after a param value token
 				return i, ErrHdrBadChar
